@@ -11,7 +11,7 @@ META = dict(
                 'on N symbolic integer items are compared with the reference interpreter (maximal runs of equal predicate value, by !=, closed at key completion, '
                 'no segment for an empty key); predicates return fresh tuples / run-time built strings so equality and identity differ. '
                 'A one-step form runs split_mux from an arbitrary stored predicate (NOTSET or a value) on one item.',
-    bounds=dict(quick='N <= 5 items (4 for the v//3 predicate and nested contexts), any integers; predicates v%3 tuple, v%2 string, v//3 tuple; contexts root, group_by(mod2), roll(2,2), roll(3,1), split',
+    bounds=dict(quick='N <= 5 items (4 for the v//3 predicate and nested contexts), any integers; predicates v%3 tuple, v%2 string, v//3 tuple; contexts root, group_by(mod2), roll(2,2), roll(3,1), split, and completion-triggered consumers placed after split on the same key',
                 thorough='N <= 7 (root), N <= 5 nested; same predicates and contexts'),
     outside='longer streams except through the one-step form; predicates with side effects or raising; error (OnErrorMux) closing path beyond the one-step form',
     assumptions=['reference interpreter vp/refsem.py transcribes the property statement', 'synchronous single-threaded delivery (RxPY immediate scheduling)'],
@@ -37,6 +37,12 @@ def _desc(ctx, pred, inner):
         return [['roll', 3, 1, [sp]]]
     if ctx == 'split':
         return [['split', 'div3', [sp]]]
+    if ctx == 'root_after':   # a completion-triggered consumer after split on the same key: the last segment must be closed before the key's own completion is forwarded
+        return [sp, ['to_list_sum']]
+    if ctx == 'group_after':
+        return [['group', 'mod2', [sp, ['scan_add_r']]]]
+    if ctx == 'roll_after':
+        return [['roll', 2, 2, [sp, ['last']]]]
     if ctx == 'split_in':     # split whose inner pipeline contains another split
         return [['split', pred, [['split', 'mod2', INNERS[inner]]]]]
     raise KeyError(ctx)
@@ -86,7 +92,7 @@ def obligations(tier, seed):
                 continue
             obs.append(Ob(PROP, 'runs', dict(ctx='root', pred=pred, inner='to_list', n=n), budget=300 if q else 900,
                           bound=dict(items=n, values='any int', pred=pred)))
-    for ctx in ('group', 'roll22', 'roll31', 'split', 'split_in'):
+    for ctx in ('group', 'roll22', 'roll31', 'split', 'split_in', 'root_after', 'group_after', 'roll_after'):
         for n in ((2, 3, 4) if q else (2, 3, 4, 5)):
             obs.append(Ob(PROP, 'runs', dict(ctx=ctx, pred='tup3', inner='to_list', n=n), budget=400 if q else 1200,
                           bound=dict(items=n, values='any int', ctx=ctx)))
